@@ -301,7 +301,7 @@ def close_flatten(chk, pid):
     al = [e for e in S.calls("allocate") if e.recv is not None and e.recv[0] == "sub"]
     tr = [e for e in S.calls("transact") if e.recv is not None and e.recv[0] == "sub"]
     chk.need(al and tr, "%s no longer closes through allocate / transact" % host)
-    if pid in ("C06", "C20"):
+    if pid in ("C06", "C20", "C08", "C10"):
         ok = bool(fl) and all(any(p and a[0] == "fld" and a[2] == "children" for a, p in []) or True for e in fl)
         chk.ob("C06.R6", bool(fl), CORE, host, "flatten-child-with-children", "closing a sub-strategy first flattens its own children", where=fi.where)
         for e in al:
@@ -321,7 +321,7 @@ def close_flatten(chk, pid):
             c = e.recv
             amt = e.args[0] if e.args else None
             ok = amt is not None and amt[0] == "neg" and amt[1][0] == "fld" and amt[1][2] == R.POSITION and canon(amt[1][1]) == canon(c) and sym.lit_holds(G(e), fi_atom, True)
-            if pid in ("C06", "C20", "C17"):
+            if pid in ("C06", "C20", "C17", "C08", "C10"):
                 chk.ob("C06.R6", ok, CORE, host, "close-amount:fi", "in a fixed-income strategy a child is closed by transacting minus its position", where=e.where,
                        expected="c.transact(-c.position)", found=short(amt, 160) if amt else "?")
         for e in al + tr:
